@@ -454,6 +454,7 @@ pub fn check_draw(c: &DrawCase) -> CheckResult {
     let distinct: std::collections::HashSet<u32> = c.img.data.iter().cloned().collect();
     o.nontrivial = inside_px > 0 && distinct.len() >= 2;
     o.class_if(neg_w || neg_h, "negative-size");
+    o.class_if(matches!(c.size, Some((sw, sh)) if sw as i32 == c.img.w && sh as i32 == c.img.h && (sw.fract() != 0.0 || sh.fract() != 0.0)), "size-less-than-one-texel-larger-than-the-image");
     o.class(if c.size.is_some() { "draw_image_with_size_at" } else if integer { "draw_image_at:integer" } else { "draw_image_at:fractional" });
     Ok(o)
 }
@@ -464,9 +465,17 @@ fn draw_strategy() -> BoxedStrategy<DrawCase> {
             let pos = prop_oneof![2 => (-6..=w, -6..=h).prop_map(|(x, y)| (x as f32, y as f32)), 1 => (-6.0f32..w as f32, -6.0f32..h as f32)];
             let sz = || prop_oneof![5 => 0.7f32..20.0, 1 => -20.0f32..-0.7];
             let size = prop::option::weighted(0.4, (sz(), sz()));
-            (Just((w, h)), init_pixels(w, h), image_probe(8, 8), pos, size)
+            (Just((w, h)), init_pixels(w, h), image_probe(8, 8), pos, size, (0u8..4, 0.05f32..0.95, 0.05f32..0.95))
         })
-        .prop_map(|((w, h), init, img, (x, y), size)| DrawCase { w, h, init, img, x, y, size })
+        .prop_map(|((w, h), init, img, (x, y), size, (near, fx, fy))| {
+            // a quarter of the sized draws stretch the image by less than one texel in each direction (a size whose
+            // whole part equals the image's: still a rescale, by up to a factor of two for a 1-texel image)
+            let size = match size {
+                Some(_) if near == 0 => Some((img.w as f32 + fx, img.h as f32 + fy)),
+                other => other,
+            };
+            DrawCase { w, h, init, img, x, y, size }
+        })
         .boxed()
 }
 
@@ -485,6 +494,7 @@ pub fn property(_ctx: &Ctx) -> Property {
             ("sample", "samples-outside-image", 0.5),
             ("sample", "extend:repeat", 0.3),
             ("sample", "image-transform-singular", 0.04),
+            ("draw", "size-less-than-one-texel-larger-than-the-image", 0.05),
         ],
         panic_is_violation: false,
     }
